@@ -75,7 +75,7 @@ pub fn check(c: &Case, st: &mut Stats) -> CheckResult {
 pub fn run(ctx: &Ctx, rep: &mut Report) {
     rep.assume(ASSUME_REF);
     rep.assume("a seed whose rejection sampling hits a value exactly equal to q cannot be constructed (hash preimage); that boundary is covered compositionally by C15 (CoeffFromThreeBytes on all 2^24 inputs)");
-    run_generated(ctx, rep, "generated", ctx.n(6000, 150_000), strategy, check);
+    run_generated(ctx, rep, "generated", ctx.n(24_000, 400_000), strategy, check);
 }
 
 pub fn replay(_ctx: &Ctx, sub: &str, case: &Value) -> Option<CheckResult> {
